@@ -2,5 +2,5 @@
 # evaluate a batch of wave-N seeds: tools/try_seedw.sh <wave> C02 C03 ...   (reads /tmp/seed<wave>-out/<id>)
 w=$1; shift
 mkdir -p /verif/.scratch/seeds_w$w
-printf "%s\n" "$@" | xargs -P 3 -I{} bash -c "/verif/tools/try_seed.sh {} /tmp/seed$w-out/{} > /verif/.scratch/seeds_w$w/{}.txt 2>&1"
+printf "%s\n" "$@" | xargs -P ${SEEDJ:-3} -I{} bash -c "/verif/tools/try_seed.sh {} /tmp/seed$w-out/{} > /verif/.scratch/seeds_w$w/{}.txt 2>&1"
 for id in "$@"; do echo "=== $id"; grep "demo on\|check .* rc=\|key=\|PATCH" /verif/.scratch/seeds_w$w/$id.txt | cut -c1-280 | head -6; done
